@@ -68,11 +68,11 @@ Section Layout.
     intros first. induction xs as [|a xs IH]; intros last i rest cs H.
     - cbn. rewrite Nat.add_0_r. reflexivity.
     - cbn [forallb] in H. apply andb_true_iff in H. destruct H as [Ha Hxs].
-      unfold gap_tok_ok in Ha. repeat (apply andb_true_iff in Ha; destruct Ha as [Ha ?]).
+      unfold gap_tok_ok in Ha. apply andb_true_iff in Ha. destruct Ha as [Ha H]. apply andb_true_iff in Ha.
       cbn [app List.length]. replace (i + S (List.length xs)) with (S i + List.length xs) by lia.
       rewrite <- (IH last (S i) rest cs Hxs).
-      match goal with H1 : negb (is_kind KName a) = true, H2 : negb (is_kind KNewline a) = true |- _ =>
-        apply negb_true_iff in H1, H2; destruct first; cbn [mode0 scan]; rewrite (no_err_kerr _ Ha), H1; try rewrite H2; reflexivity end.
+      destruct Ha as [Ha H1]. rename H into H2.
+      apply negb_true_iff in H1, H2; destruct first; cbn [mode0 scan]; rewrite (no_err_kerr _ Ha), H1; try rewrite H2; reflexivity.
   Qed.
 
   Lemma scan_body : forall body p b c saw i rest cs key st row p' b' c',
@@ -359,4 +359,286 @@ Proof.
     unfold parse_ok. unfold seg_parsed in *. destruct (P (ext_of g)); try discriminate. eauto.
   - apply Forall_forall. intros g Hg. rewrite forallb_forall in Hn1. apply negb_true_iff. auto.
   - apply Forall_forall. intros g Hg. rewrite forallb_forall in Hn2. apply negb_true_iff. auto.
+Qed.
+
+(* ------------------------------------------------------------------ the outcome on every segment layout *)
+Theorem segment_layout_outcome :
+  forall P L dsrc caller args earlier gs tail,
+    forallb (backs_up P) earlier = true ->
+    segs_ok true ["lambda"] gs = true ->
+    forallb (seg_parsed P) gs = true ->
+    end_ok gs tail = true ->
+    find P (earlier ++ [layout_toks gs tail]) L true dsrc caller args
+    = select true L caller args (List.length earlier) (cands_from P gs 0).
+Proof.
+  intros P L dsrc caller args earlier gs tail He Hok Hp Hend.
+  assert (Hp' : Forall (parse_ok P) gs).
+  { apply Forall_forall. intros g Hg. rewrite forallb_forall in Hp. specialize (Hp g Hg).
+    unfold parse_ok. unfold seg_parsed in Hp. destruct (P (ext_of g)); try discriminate. eauto. }
+  assert (He' : Forall (fun ts => exists k, scan_stream P ["lambda"] ts = ScNoName k) earlier).
+  { rewrite forallb_forall in He. apply Forall_forall. intros ts Hts. specialize (He ts Hts).
+    unfold backs_up in He. destruct (scan_stream P ["lambda"] ts); try discriminate. eauto. }
+  set (toks := layout_toks gs tail).
+  assert (Hscan : scan_stream P ["lambda"] toks = ScDone (cands_from P gs 0)).
+  { exact (scan_chain P ["lambda"] toks eq_refl gs true [] tail [] None eq_refl Hok Hp' Hend). }
+  unfold find, find_gen. cbn [keywords].
+  rewrite (backup_earlier P ["lambda"] earlier toks 0 He') by (intros k; rewrite Hscan; discriminate).
+  rewrite Hscan. reflexivity.
+Qed.
+
+Lemma two_or_more : forall (A : Type) (X Y Z : list A) c1 c2,
+    exists a b t, X ++ c1 :: Y ++ c2 :: Z = a :: b :: t.
+Proof.
+  intros A X Y Z c1 c2. destruct X as [|x [|x' X']]; cbn.
+  - destruct Y; cbn; eauto.
+  - eauto.
+  - eauto.
+Qed.
+
+Lemma select_filters : forall L caller args s cs,
+    select true L (Some caller) args s cs
+    = match filter (key_is caller) (filter (on_row L) cs) with
+      | [] => Err ENoLambda
+      | _ => if existsb no_lambda (filter (key_is caller) (filter (on_row L) cs)) then Crash "AttributeError"
+             else match filter (cand_matches L caller args) cs with
+                  | [] => Err ENoArgs
+                  | [c] => Found s (c_start c)
+                  | _ => Err EMultiple
+                  end
+      end.
+Proof.
+  intros. unfold select. cbv zeta.
+  set (search := filter (key_is caller) (filter (on_row L) cs)).
+  replace (filter (args_are args) search) with (filter (cand_matches L caller args) cs); [reflexivity|].
+  unfold search. rewrite filter_filter2, filter_filter2. apply filter_ext. intros; reflexivity.
+Qed.
+
+(* two segments with the callable's row, caller and parameter names: "Found multiple calls" *)
+Theorem ambiguous_layout_raises :
+  forall P L dsrc caller args earlier gs1 g1 gs2 g2 gs3 tail,
+    forallb (backs_up P) earlier = true ->
+    segs_ok true ["lambda"] (gs1 ++ g1 :: gs2 ++ g2 :: gs3) = true ->
+    forallb (seg_parsed P) (gs1 ++ g1 :: gs2 ++ g2 :: gs3) = true ->
+    end_ok (gs1 ++ g1 :: gs2 ++ g2 :: gs3) tail = true ->
+    seg_matches P L caller args g1 = true ->
+    seg_matches P L caller args g2 = true ->
+    find P (earlier ++ [layout_toks (gs1 ++ g1 :: gs2 ++ g2 :: gs3) tail]) L true dsrc (Some caller) args
+    = Err EMultiple.
+Proof.
+  intros P L dsrc caller args earlier gs1 g1 gs2 g2 gs3 tail He Hok Hp Hend H1 H2.
+  rewrite segment_layout_outcome by assumption. rewrite select_filters.
+  set (gs := gs1 ++ g1 :: gs2 ++ g2 :: gs3) in *. set (cs := cands_from P gs 0).
+  assert (Hcs : exists A B C c1 c2, cs = A ++ c1 :: B ++ c2 :: C
+                                    /\ cand_matches L caller args c1 = true /\ cand_matches L caller args c2 = true).
+  { unfold cs, gs. rewrite cands_from_app. cbn [cands_from].
+    change (g1 :: gs2 ++ g2 :: gs3) with ([g1] ++ gs2 ++ g2 :: gs3).
+    do 5 eexists. split.
+    - cbn [app]. rewrite cands_from_app. cbn [cands_from]. reflexivity.
+    - split; rewrite cand_of_matches; assumption. }
+  destruct Hcs as (A & B & C & c1 & c2 & Ecs & M1 & M2).
+  assert (Hm : exists a b t, filter (cand_matches L caller args) cs = a :: b :: t).
+  { rewrite Ecs. rewrite filter_app. cbn [filter]. rewrite M1. rewrite filter_app. cbn [filter]. rewrite M2.
+    apply two_or_more. }
+  destruct Hm as (a & b & t & Hm).
+  assert (Hsearch : In c1 (filter (key_is caller) (filter (on_row L) cs))).
+  { unfold cand_matches in M1. apply andb_true_iff in M1. destruct M1 as [Mr M1]. apply andb_true_iff in M1.
+    destruct M1 as [Mk _]. apply filter_In. split; [apply filter_In; split; auto|auto].
+    rewrite Ecs. apply in_or_app. right. left. reflexivity. }
+  assert (Hnl : existsb no_lambda (filter (key_is caller) (filter (on_row L) cs)) = false).
+  { apply not_true_is_false. intros Hex. apply existsb_exists in Hex. destruct Hex as (x & Hx & Hn).
+    apply filter_In in Hx. destruct Hx as [Hx _]. apply filter_In in Hx. destruct Hx as [Hx _].
+    assert (Hp' : Forall (parse_ok P) gs).
+    { apply Forall_forall. intros g Hg. rewrite forallb_forall in Hp. specialize (Hp g Hg).
+      unfold parse_ok. unfold seg_parsed in Hp. destruct (P (ext_of g)); try discriminate. eauto. }
+    destruct (cands_from_parse P gs 0 x Hp' Hx) as [a0 Ha]. unfold no_lambda in Hn. rewrite Ha in Hn. discriminate. }
+  destruct (filter (key_is caller) (filter (on_row L) cs)) as [|c0 rest]; [destruct Hsearch|].
+  rewrite Hnl, Hm. reflexivity.
+Qed.
+
+(* no segment is on the callable's row with the caller's name in front of it - e.g. the lambda is not
+   the first argument (`Select(x, lambda e: ...)`: its preceding NAME is x), is passed by keyword, or
+   is wrapped in a helper call: "Found no lambda in arguments to <caller>" *)
+Theorem uncalled_layout_raises :
+  forall P L dsrc caller args earlier gs tail,
+    forallb (backs_up P) earlier = true ->
+    segs_ok true ["lambda"] gs = true ->
+    forallb (seg_parsed P) gs = true ->
+    end_ok gs tail = true ->
+    forallb (fun g => negb (Nat.eqb (g_lrow g) L && String.eqb (g_name g) caller)) gs = true ->
+    find P (earlier ++ [layout_toks gs tail]) L true dsrc (Some caller) args = Err ENoLambda.
+Proof.
+  intros P L dsrc caller args earlier gs tail He Hok Hp Hend Hno.
+  rewrite segment_layout_outcome by assumption. unfold select.
+  assert (Hnone : forall i, filter (key_is caller) (filter (on_row L) (cands_from P gs i)) = []).
+  { intros i. rewrite filter_filter2. revert i. clear Hok Hp Hend. induction gs as [|g r IH]; intros i; [reflexivity|].
+    cbn [forallb] in Hno. apply andb_true_iff in Hno. destruct Hno as [Hg Hr].
+    cbn [cands_from filter]. apply negb_true_iff in Hg.
+    change (on_row L (cand_of P g i) && key_is caller (cand_of P g i))
+      with (Nat.eqb (g_lrow g) L && String.eqb (g_name g) caller).
+    rewrite Hg. apply IH; auto. }
+  rewrite Hnone. reflexivity.
+Qed.
+
+(* ------------------------------------------------------------------ bracket nesting vs the three counters *)
+Fixpoint cnt (k : br) (stack : list br) : Z :=
+  match stack with
+  | [] => 0%Z
+  | b :: s => ((if br_eqb k b then 1 else 0) + cnt k s)%Z
+  end.
+
+Lemma cnt_nonneg : forall k s, (0 <= cnt k s)%Z.
+Proof. induction s as [|b s IH]; cbn [cnt]; [lia|]. destruct (br_eqb k b); lia. Qed.
+
+Lemma zero3_stack : forall s,
+    zero3 (cnt BPar s) (cnt BBrk s) (cnt BBrc s) = match s with [] => true | _ => false end.
+Proof.
+  intros [|b s]; [reflexivity|]. unfold zero3. cbn [cnt].
+  pose proof (cnt_nonneg BPar s). pose proof (cnt_nonneg BBrk s). pose proof (cnt_nonneg BBrc s).
+  destruct b; cbn [br_eqb].
+  - assert (E : (1 + cnt BPar s =? 0)%Z = false) by (apply Z.eqb_neq; lia). rewrite E. reflexivity.
+  - assert (E : (1 + cnt BBrk s =? 0)%Z = false) by (apply Z.eqb_neq; lia). rewrite E.
+    rewrite andb_false_r. reflexivity.
+  - assert (E : (1 + cnt BBrc s =? 0)%Z = false) by (apply Z.eqb_neq; lia). rewrite E. apply andb_false_r.
+Qed.
+
+Lemma is_op_other : forall s t, is_op s t = true -> forall s', is_op s' t = String.eqb s s'.
+Proof.
+  intros s t H s'. unfold is_op in *. apply andb_true_iff in H. destruct H as [Hk Ht].
+  rewrite Hk. cbn [andb]. apply String.eqb_eq in Ht. rewrite Ht. reflexivity.
+Qed.
+
+Lemma nested_ok_body_ok : forall ts stack,
+    nested_ok stack ts = true ->
+    body_ok (cnt BPar stack) (cnt BBrk stack) (cnt BBrc stack) ts = Some (0%Z, 0%Z, 0%Z).
+Proof.
+  induction ts as [|t r IH]; intros stack H.
+  - cbn [nested_ok] in H. destruct stack; [reflexivity | discriminate].
+  - cbn [nested_ok] in H. cbn [body_ok].
+    destruct (is_kind KErr t); [discriminate|].
+    rewrite zero3_stack. unfold is_stop, dpar, dbrk, dbrc, delta. unfold opener, closer in H.
+    destruct (is_op "(" t) eqn:E1.
+    { repeat rewrite (is_op_other _ _ E1). cbn. specialize (IH _ H). cbn [cnt br_eqb] in IH.
+      replace (cnt BBrk stack + 0)%Z with (0 + cnt BBrk stack)%Z by lia.
+      replace (cnt BBrc stack + 0)%Z with (0 + cnt BBrc stack)%Z by lia.
+      replace (cnt BPar stack + 1)%Z with (1 + cnt BPar stack)%Z by lia. exact IH. }
+    destruct (is_op "[" t) eqn:E2.
+    { repeat rewrite (is_op_other _ _ E2). cbn. specialize (IH _ H). cbn [cnt br_eqb] in IH.
+      replace (cnt BPar stack + 0)%Z with (0 + cnt BPar stack)%Z by lia.
+      replace (cnt BBrc stack + 0)%Z with (0 + cnt BBrc stack)%Z by lia.
+      replace (cnt BBrk stack + 1)%Z with (1 + cnt BBrk stack)%Z by lia. exact IH. }
+    destruct (is_op "{" t) eqn:E3.
+    { repeat rewrite (is_op_other _ _ E3). cbn. specialize (IH _ H). cbn [cnt br_eqb] in IH.
+      replace (cnt BPar stack + 0)%Z with (0 + cnt BPar stack)%Z by lia.
+      replace (cnt BBrk stack + 0)%Z with (0 + cnt BBrk stack)%Z by lia.
+      replace (cnt BBrc stack + 1)%Z with (1 + cnt BBrc stack)%Z by lia. exact IH. }
+    destruct (is_op ")" t) eqn:E4.
+    { repeat rewrite (is_op_other _ _ E4). cbn.
+      destruct stack as [|b' s']; [discriminate|]. apply andb_true_iff in H. destruct H as [Hb H].
+      destruct b'; try discriminate. specialize (IH _ H). cbn [cnt br_eqb].
+      replace (1 + cnt BPar s' + -1)%Z with (cnt BPar s') by lia.
+      replace (0 + cnt BBrk s' + 0)%Z with (cnt BBrk s') by lia.
+      replace (0 + cnt BBrc s' + 0)%Z with (cnt BBrc s') by lia. exact IH. }
+    destruct (is_op "]" t) eqn:E5.
+    { repeat rewrite (is_op_other _ _ E5). cbn.
+      destruct stack as [|b' s']; [discriminate|]. apply andb_true_iff in H. destruct H as [Hb H].
+      destruct b'; try discriminate. specialize (IH _ H). cbn [cnt br_eqb].
+      replace (0 + cnt BPar s' + 0)%Z with (cnt BPar s') by lia.
+      replace (1 + cnt BBrk s' + -1)%Z with (cnt BBrk s') by lia.
+      replace (0 + cnt BBrc s' + 0)%Z with (cnt BBrc s') by lia. exact IH. }
+    destruct (is_op "}" t) eqn:E6.
+    { repeat rewrite (is_op_other _ _ E6). cbn.
+      destruct stack as [|b' s']; [discriminate|]. apply andb_true_iff in H. destruct H as [Hb H].
+      destruct b'; try discriminate. specialize (IH _ H). cbn [cnt br_eqb].
+      replace (0 + cnt BPar s' + 0)%Z with (cnt BPar s') by lia.
+      replace (0 + cnt BBrk s' + 0)%Z with (cnt BBrk s') by lia.
+      replace (1 + cnt BBrc s' + -1)%Z with (cnt BBrc s') by lia. exact IH. }
+    destruct (is_op "," t) eqn:E7.
+    { destruct stack as [|b' s']; [discriminate|]. cbn [orb andb].
+      specialize (IH _ H). repeat rewrite Z.add_0_r. exact IH. }
+    cbn [orb andb]. specialize (IH _ H). repeat rewrite Z.add_0_r. exact IH.
+Qed.
+
+Theorem nested_ok_balanced : forall body, nested_ok [] body = true -> body_balanced body = true.
+Proof.
+  intros body H. unfold body_balanced. pose proof (nested_ok_body_ok body [] H) as E. cbn [cnt] in E.
+  rewrite E. reflexivity.
+Qed.
+
+Lemma seg_syn_ok_seg_ok : forall first last kw g, seg_syn_ok first last kw g = true -> seg_ok first last kw g = true.
+Proof.
+  intros first last kw g H. unfold seg_syn_ok in H. unfold seg_ok.
+  repeat (apply andb_true_iff in H; destruct H as [H ?]).
+  repeat (apply andb_true_iff; split); auto. apply nested_ok_balanced; auto.
+Qed.
+
+Lemma segs_syn_ok_segs_ok : forall gs first kw, segs_syn_ok first kw gs = true -> segs_ok first kw gs = true.
+Proof.
+  induction gs as [|g r IH]; intros first kw H; [reflexivity|].
+  destruct r as [|g2 r'].
+  - cbn [segs_syn_ok] in H. cbn [segs_ok]. apply seg_syn_ok_seg_ok; auto.
+  - cbn [segs_syn_ok] in H. apply andb_true_iff in H. destruct H as [Hg Hr].
+    cbn [segs_ok]. apply andb_true_iff. split; [apply seg_syn_ok_seg_ok; auto | apply IH; auto].
+Qed.
+
+Theorem recognised_supported :
+  forall P L caller args gs1 g0 gs2 tail,
+    recognisedb P L caller args gs1 g0 gs2 tail = true -> supported_layoutb P L caller args gs1 g0 gs2 tail = true.
+Proof.
+  intros P L caller args gs1 g0 gs2 tail H. unfold recognisedb in H. unfold supported_layoutb.
+  repeat (apply andb_true_iff in H; destruct H as [H ?]).
+  rewrite (segs_syn_ok_segs_ok _ _ _ H). rewrite H0, H1, H2, H3. reflexivity.
+Qed.
+
+(* ------------------------------------------------------------------ the def branch *)
+Lemma scan_def_eq : forall P whole ts last i cs,
+    scan P ["def"] whole (First last) i ts cs = def_scan ts.
+Proof.
+  intros P whole. induction ts as [|t r IH]; intros last i cs; cbn [scan def_scan]; [reflexivity|].
+  destruct (is_kind KErr t); [reflexivity|]. unfold is_name.
+  destruct (is_kind KName t); cbn [andb]; [|apply IH].
+  cbn [existsb]. destruct (String.eqb (ttext t) "def"); cbn [orb]; [reflexivity | apply IH].
+Qed.
+
+Lemma def_scan_shape : forall ts, match def_scan ts with ScDone _ | ScNoName _ => False | _ => True end.
+Proof. induction ts as [|t r IH]; cbn [def_scan]; auto. destruct (is_kind KErr t); auto. destruct (is_name "def" t); auto. Qed.
+
+(* the outcome for a function depends on nothing but the first stream up to its first `def` and the
+   function's own parsed source: no lambda of the neighbourhood, no caller name, no parameter name and
+   no parse of any extent takes part *)
+Theorem def_exact :
+  forall P streams L dsrc caller args,
+    find P streams L false dsrc caller args
+    = match streams with
+      | [] => NeedStream 0
+      | ts :: _ => match def_scan ts with
+                   | ScDef => def_outcome dsrc
+                   | ScCrash e => Crash e
+                   | _ => Err ENoSource
+                   end
+      end.
+Proof.
+  intros P streams L dsrc caller args. unfold find, find_gen. cbn [keywords].
+  destruct streams as [|ts more]; [reflexivity|]. cbn [backup]. unfold scan_stream. rewrite scan_def_eq.
+  pose proof (def_scan_shape ts) as Hs. destruct (def_scan ts); try contradiction; reflexivity.
+Qed.
+
+Theorem def_supported :
+  forall P ts more L dsrc caller args,
+    def_layoutb ts dsrc = true -> find P (ts :: more) L false dsrc caller args = FoundDef.
+Proof.
+  intros P ts more L dsrc caller args H. rewrite def_exact. unfold def_layoutb in H.
+  destruct (def_scan ts); try discriminate. unfold one_return in H. destruct dsrc as [b|e]; [|discriminate].
+  cbn [def_outcome]. destruct (filter not_doc b) as [|x [|y l']]; try discriminate; destruct x; try discriminate; reflexivity.
+Qed.
+
+(* safety of the def branch: FoundDef is answered only when the function's own source (dsrc - what
+   inspect.getsource + ast.parse give for the object that was passed) is docstrings plus one return *)
+Theorem def_found_only_own_return :
+  forall P streams L dsrc caller args,
+    find P streams L false dsrc caller args = FoundDef -> one_return dsrc = true.
+Proof.
+  intros P streams L dsrc caller args H. rewrite def_exact in H.
+  destruct streams as [|ts more]; [discriminate|]. destruct (def_scan ts); try discriminate.
+  unfold one_return. destruct dsrc as [b|e]; cbn [def_outcome] in H; [|discriminate].
+  destruct (filter not_doc b) as [|x [|y l']]; try discriminate; destruct x; try discriminate; reflexivity.
 Qed.
